@@ -59,6 +59,24 @@ class VariableComputationNode(ComputationNode):
     def constraints(self):
         return self._constraints
 
+    def _simple_repr(self):
+        # The order links are added to the node by the graph, after the node has been
+        # built: they must be serialized explicitly or they are lost when the
+        # computation definition is sent to another agent.
+        r = super()._simple_repr()
+        r["order_links"] = [
+            simple_repr(l) for l in self.links if isinstance(l, OrderLink)
+        ]
+        return r
+
+    @classmethod
+    def _from_repr(cls, r):
+        r = dict(r)
+        order_links = r.pop("order_links", [])
+        node = super()._from_repr(r)
+        node.links.extend(from_repr(l) for l in order_links)
+        return node
+
     def get_previous(self):
         for l in self.links:
             if l.type == "previous":
